@@ -9,6 +9,7 @@
 #include <tins/pdu_allocator.h>
 #include <tins/utils/checksum_utils.h>
 #include <chrono>
+#include <ctime>
 #include <cstring>
 #include <mutex>
 #include <sstream>
@@ -488,11 +489,12 @@ uint64_t w_wep(int scale) {
     return d.h;
 }
 
-// ---- 7: WPA2 handshake + CCMP decrypt (thorough: + TKIP)
-void wpa2_run(Dig& d, const char* psk, const char* ssid, const uint8_t* const* pk, const unsigned* sz, unsigned n) {
-    Crypto::WPA2Decrypter dec;
-    dec.add_ap_data(psk, ssid);
-    for (unsigned i = 0; i < n; ++i) {
+// ---- 7 / 7b: WPA2: beacon + 4-way handshake -> keys -> decrypt the data frames; CCMP and TKIP captures.
+// Three thread-private decrypters per run: passphrase + SSID (keys must be learned from the handshake: PBKDF2, PRF, MIC check),
+// a WRONG passphrase (the handshake must be rejected: no keys, nothing decrypts), and direct keys (the learned keys installed
+// with add_decryption_keys).  The digest holds: which frames decrypted, the plaintext layers, the key material, the key count.
+void wpa2_frames(Dig& d, Crypto::WPA2Decrypter& dec, const uint8_t* const* pk, const unsigned* sz, unsigned n, unsigned from) {
+    for (unsigned i = from; i < n; ++i) {
         Bytes w(pk[i], pk[i] + sz[i]);
         RadioTap radio(w.data(), (uint32_t)w.size());
         bool ok = dec.decrypt(radio);
@@ -502,14 +504,36 @@ void wpa2_run(Dig& d, const char* psk, const char* ssid, const uint8_t* const* p
             if (const TCP* t = radio.find_pdu<TCP>()) d << t->sport() << t->dport() << t->window();
             d << radio.rfind_pdu<Dot11>().size();
             if (const IP* ip = radio.find_pdu<IP>()) d << ip->src_addr() << ip->dst_addr();
+            if (const RawPDU* raw = radio.find_pdu<RawPDU>()) d << raw->payload();
+            d << radio.serialize();
         }
     }
-    d << uint64_t(dec.get_keys().size());
 }
-uint64_t w_wpa2(int scale) {
+void wpa2_run(Dig& d, const char* psk, const char* ssid, const uint8_t* const* pk, const unsigned* sz, unsigned n) {
+    Crypto::WPA2Decrypter dec;
+    dec.add_ap_data(psk, ssid);
+    wpa2_frames(d, dec, pk, sz, n, 0);
+    const Crypto::WPA2Decrypter::keys_map& keys = dec.get_keys();
+    d << uint64_t(keys.size());                              // 1 = handshake accepted, keys learned
+    Crypto::WPA2Decrypter direct;                            // direct keys: no handshake needed, data frames only
+    for (Crypto::WPA2Decrypter::keys_map::const_iterator it = keys.begin(); it != keys.end(); ++it) {
+        d << it->first.first << it->first.second << it->second.uses_ccmp() << it->second.get_ptk();
+        direct.add_decryption_keys(it->first, it->second);
+    }
+    wpa2_frames(d, direct, pk, sz, n, 5);
+    Crypto::WPA2Decrypter wrong;                             // wrong passphrase: MIC check must fail
+    wrong.add_ap_data(std::string(psk) + "x", ssid);
+    wpa2_frames(d, wrong, pk, sz, n, 0);
+    d << uint64_t(wrong.get_keys().size());                  // 0
+}
+uint64_t w_wpa2(int) {
     Dig d;
     wpa2_run(d, "Induction", "Coherer", k_ccmp_packets, k_ccmp_packets_size, k_ccmp_packets_n);
-    if (scale) wpa2_run(d, "libtinstest", "NODO", k_tkip_packets, k_tkip_packets_size, k_tkip_packets_n);
+    return d.h;
+}
+uint64_t w_wpa2_tkip(int) {
+    Dig d;
+    wpa2_run(d, "libtinstest", "NODO", k_tkip_packets, k_tkip_packets_size, k_tkip_packets_n);
     return d.h;
 }
 
@@ -789,6 +813,15 @@ __attribute__((noinline)) uint64_t locked_cache(uint32_t v) {
 uint64_t w_locked_a(int) { return locked_cache(0x1234567u) ^ (locked_cache(77) << 3); }
 uint64_t w_locked_b(int) { return locked_cache(0x7654321u) ^ (locked_cache(99) << 3); }
 
+
+// Foreign: the shared state lives in an UNINSTRUMENTED library: gmtime() returns a pointer to one static struct tm inside libc.
+__attribute__((noinline)) uint64_t foreign_static_user(time_t when) {
+    const struct tm* t = gmtime(&when);
+    return uint64_t(t->tm_year) * 1000000 + uint64_t(t->tm_yday) * 1000 + uint64_t(t->tm_hour) * 10 + uint64_t(t->tm_min % 10);
+}
+uint64_t w_foreign_a(int) { return foreign_static_user(86400 * 365 + 3600 * 5 + 60); }
+uint64_t w_foreign_b(int) { return foreign_static_user(86400 * 9000 + 3600 * 17 + 420); }
+
 }  // namespace
 
 namespace c18 {
@@ -807,6 +840,7 @@ const Workload kWorkloads[] = {
     {"stream_follower", w_follower, LIBTINS},
     {"wep_decrypt", w_wep, LIBTINS},
     {"wpa2_decrypt", w_wpa2, LIBTINS},
+    {"wpa2_tkip_decrypt", w_wpa2_tkip, LIBTINS},
     {"addresses", w_addresses, LIBTINS},
     {"checksums_crc", w_checksums, LIBTINS},
     {"pdu_copy_move_clone", w_copy_move, LIBTINS},
@@ -828,9 +862,11 @@ const Workload kWorkloads[] = {
     {"canary_locked_b", w_locked_b, CANARY_LOCKED},
     {"canary_copyshare_a", canary_cow_a, CANARY_COPYSHARE},
     {"canary_copyshare_b", canary_cow_b, CANARY_COPYSHARE},
+    {"canary_foreign_static_a", w_foreign_a, CANARY_FOREIGN},
+    {"canary_foreign_static_b", w_foreign_b, CANARY_FOREIGN},
 };
 const int kNumWorkloads = sizeof(kWorkloads) / sizeof(kWorkloads[0]);
-const int kNumLibtins = 15;
+const int kNumLibtins = 16;
 const int kNumDescendant = 6;
 
 void setup_registry() {
